@@ -104,6 +104,28 @@ def install(R: Registry):
                },
                locals=dict(sent="Bool"))
 
+    # ------------------------------------------------------------------ Client.send_signal: a bare type id, no payload, version 0 (C13: not a versioned send)
+    _same = "self.mgr_subs == old(self.mgr_subs) and self._connected == old(self._connected) and self._msg_count == old(self._msg_count)"
+    R.contract(C + "Client.send_signal", tags="C13 C06",
+               params=dict(signal_type="Int", dest_mod_id="Int", dest_host_id="Int", timeout="Float"),
+               requires=["self._sock != null", "not self._sock.closed",
+                         "-2147483648 <= signal_type and signal_type <= 2147483647 and 0 <= self._msg_count and self._msg_count <= 2147483647",
+                         "-32768 <= self._module_id and self._module_id <= 32767 and -32768 <= self._host_id and self._host_id <= 32767"],
+               modifies=["Client._msg_count", "Client._connected", "CSocket.tx_n", "CSocket.tx_hdr"],
+               ensures=[
+                   ("C13", "implies(timeout < 0, self._sock.tx_hdr != null and self._sock.tx_hdr.reserved == 0 and self._sock.tx_hdr.num_data_bytes == 0)",
+                    "a signal frame carries no payload and version 0 (the protocol's 'not filled in')"),
+                   ("C06", "implies(timeout < 0, self._sock.tx_hdr.msg_type == wrap_int(signal_type, 32) and self._sock.tx_hdr.src_mod_id == wrap_int(old(self._module_id), 16))"),
+                   "self._connected and self.mgr_subs == old(self.mgr_subs)",
+                   "forall('c:Client', implies(c != self, c.mgr_subs == old(c.mgr_subs) and c._connected == old(c._connected) and c._msg_count == old(c._msg_count)))",
+               ],
+               raises={
+                   "ConnectionLost": ["not self._connected", "forall('c:Client', implies(c != self, c.mgr_subs == old(c.mgr_subs) and c._connected == old(c._connected)))"],
+                   "NotConnectedError": ["not old(self._connected)", _same],
+                   "InvalidDestinationModule": ["dest_mod_id < 0 or dest_mod_id > 200", _same],
+                   "InvalidDestinationHost": ["dest_host_id < 0 or dest_host_id > 5", _same],
+               })
+
     # ------------------------------------------------------------------ _subscription_control (C02)
     SUBSCRIBE, UNSUB, PAUSE, RESUME = '"Subscribe"', '"Unsubscribe"', '"PauseSubscription"', '"ResumeSubscription"'
     R.define("inlist", "L: List[Int], t: Int", "exists('j:Int', 0 <= j and j < len(L) and L[j] == t)")
